@@ -304,6 +304,9 @@ def fail_bucket(fn, src, cfg, args, ctx, o, v, feats, length, k, kval, trips=Non
             if isinstance(v2, tuple):
                 return fail_bucket(fn, src, step, args, ctx, o, v2, feats, length, c08_gen.factor_of(step, kval), kval, trips)
     cause = c08_diag.diagnose(src, lambda new_src: still_fails(new_src, cfg, args, ctx))
+    if cause == 'name-collision:numbered-name':
+        # every rewrite mints its temporaries through Gensym, and only Gensym spells a name base+count
+        return f'gensym/{cause}'
     if cause is not None:
         kind = cfg['t'] if cfg['t'] != 'seq' else label(cfg)
         return f'{kind}/{cause}'
@@ -578,7 +581,7 @@ def main(t, n, i, m):
     ('helper-mutates', '''
 @fp.fpy
 def h0(p0, p1):
-    p0[0] = p0[0] + p1
+    p0[len(p0) - 1] = p0[len(p0) - 1] + p1
     return p1 * 2
 
 @fp.fpy
@@ -588,8 +591,12 @@ def main(t, n, i, m):
         acc = acc + h0(t, x)
     for x, y in zip(n, t):
         acc = acc + h0(n, y) - x
-    return (acc, t, n)
-''', _loops(('A', None), ('A', None)), 0, {'unroll_for', 'split', 'elim_iter'},
+    for j, x in enumerate(t):
+        acc = acc * 2 + h0(t, j) - x
+    r = [h0(t, x) + y for x, y in zip(t, n)]
+    s = [h0(n, x) + j for j, x in enumerate(n)]
+    return (acc, t, n, r, s)
+''', _loops(('A', None), ('A', None), ('A', None)), 0, {'unroll_for', 'split', 'elim_iter'},
      {'name-collision', 'mutates-iterable', 'helper-mutates-iterable', 'zip', 'derived-iter-body-mutates-source'}, 0),
     ('comprehension-paths', '''
 _i = 10
@@ -679,6 +686,24 @@ def main(t, n, i, m):
     return (t24, t25, t26, t27, i28, i29, j30, j31, n25, acc26, b27, _i26, _src25)
 ''', _loops(('A', None), ('A', None)), 0, {'unroll_for', 'split', 'elim_iter', 'fuse'},
      {'name-collision', 'zip', 'enumerate', 'any-all', 'anyall-in-loop', 'anyall-under-shortcircuit'}, 0),
+    ('default-temp-names', '''
+@fp.fpy
+def main(t, n, i, m):
+    _i = i
+    _src = m
+    acc = 0
+    b = 1
+    j = 2
+    for x, y in zip(t, n):
+        acc = acc + x * y + _i
+    for x, y in zip(n, t):
+        b = b + x - y + _src
+    for j, x in enumerate(t):
+        acc = acc - j * x
+    c = any([x > _i for x in t]) or all([y < b for y in n])
+    return (_i, _src, acc, b, j, c, i, m)
+''', _loops(('A', None), ('A', None), ('A', None)), 0, {'unroll_for', 'split', 'elim_iter', 'fuse'},
+     {'name-collision', 'zip', 'enumerate', 'any-all', 'anyall-under-shortcircuit', 'target-rebinds-outer'}, 0),
     ('two-loops-branches', '''
 @fp.fpy
 def main(t, n, i, m):
